@@ -9,7 +9,7 @@ import re
 from ..core import where
 from ..panics import run_inventory, guard_strings
 from ..tables.sites_C29 import TABLE
-from ..facts import describe_operand
+from ..facts import norm, describe_operand
 from ..intervals import fmt_desc, iv
 from .common import match_table, string_consts
 
@@ -78,6 +78,27 @@ def run(ctx):
       ctx.ob('R29.1', cm.n, f'fast path: every subsidy of an epoch below {E[0]} is a multiple of subsidy({D[0]})', sub(D[0]) > 0 and all(sub(k) % sub(D[0]) == 0 for k in range(E[0])), '', where(cm, cm.line))
       gs = [g for c in cm.calls_to('ordinals::epoch::Epoch::subsidy') if epoch_arg(c) is not None for g in guard_strings(cm, c.bb)]
       ctx.ob('R29.1', cm.n, 'the divisibility shortcut is taken only under self < Epoch(E).starting_sat()', any(re.match(r'^Lt\(self,Epoch::starting_sat\(Epoch\{\d+\}\)\)==True$', g) for g in gs), f'{gs}', where(cm, cm.line))
+      # the shortcut is one-sided: it may only answer `true`; every other answer is the exact epoch computation (seeded C29-a)
+      from .common import deep_origins as _deep
+      consts, computed = [], []
+      for bi in cm.reachable_from(0):
+        for st_ in cm.blocks[bi]['s']:
+          if st_.get('p') and st_['p']['l'] == 0 and not st_['p'].get('p') and st_.get('rv'):
+            rv = st_['rv']
+            if rv['k'] == 'use' and 'k' in rv['o']:
+              consts.append(rv['o']['k'].get('v'))
+            else:
+              ops = [rv.get('o'), rv.get('a'), rv.get('b')]
+              names = set()
+              for o_ in ops:
+                if o_:
+                  names |= {x.call.name for x in _deep(cm, o_, all_args=True) if x.kind == 'call'}
+              computed.append(names)
+      ctx.ob('R29.1', cm.n, 'the shortcut only ever answers true', consts == [True], f'constant results {consts}', where(cm, cm.line))
+      full = {'ordinals::sat::Sat::epoch', 'ordinals::epoch::Epoch::starting_sat', 'ordinals::epoch::Epoch::subsidy'}
+      ctx.ob('R29.1', cm.n, 'every computed answer is the exact calculation: (n - epoch().starting_sat()) not a multiple of epoch().subsidy()', len(computed) == 1 and full <= computed[0],
+             f'{[sorted(x.split("::")[-1] for x in c if x) for c in computed]}', where(cm, cm.line))
+  _r29_4(ctx, F)
   # ---- R29.2
   ef = F.bodies.get(EPOCH_FROM_SAT)
   if ctx.anchor('R29.2', EPOCH_FROM_SAT, ef is not None):
@@ -129,3 +150,101 @@ MUTANTS = [{'name': 'epoch-ladder-off-by-one', 'file': 'crates/ordinals/src/epoc
 
 # behaviour-preserving edits (thorough tier): the rules must stay silent on every one of them
 NEUTRAL = [{'name': 'Sat::height: intermediate bindings', 'file': 'crates/ordinals/src/sat.rs', 'old': '    self.epoch().starting_height()\n      + u32::try_from(self.epoch_position() / self.epoch().subsidy()).unwrap()', 'new': '    let epoch = self.epoch();\n    let blocks = self.epoch_position() / epoch.subsidy();\n    epoch.starting_height() + u32::try_from(blocks).unwrap()'}]
+
+
+def _r29_4(ctx, F):
+  """Sat::nineball() <=> height 9: the set of accepted numbers, derived from the guards / comparison (or a Range(Inclusive)::contains) on
+  the paths that can answer true, is exactly [9 * subsidy(0), 10 * subsidy(0))"""
+  from ..affine import Analysis, Aff, pkey, le_forms
+  ctx.rule('R29.4', 'Sat::nineball accepts exactly the sats of block 9: the numbers n with 9·50·10^8 <= n < 10·50·10^8 (derived from the comparisons on the accepting paths, or from a Range / RangeInclusive::contains)')
+  b = ctx.body('R29.4', 'ordinals::sat::Sat::nineball')
+  if b is None:
+    return
+  an = Analysis(b, adts=F.adts)
+  rets = b.return_blocks()
+  lo_want, hi_want = 9 * 50 * COIN, 10 * 50 * COIN - 1
+  acc = []
+  unknown = []
+  nsyms = {('call', c.bb) for c in b.calls if c.is_('ordinals::sat::Sat::n')} | {('pure', c.name, ()) for c in b.calls if c.is_('ordinals::sat::Sat::n')}
+
+  def is_n(a):
+    sy = a.single()
+    if sy is None:
+      return False
+    if isinstance(sy, tuple) and sy[0] == 'pure' and sy[1].endswith('Sat::n'):
+      return True
+    return sy in nsyms or (isinstance(sy, tuple) and sy[0] in ('init', 'f') and True and (sy[0] == 'init' and sy[1][0] == 1))
+
+  for rb in rets:
+    for s in an.at_term(rb):
+      v = s.val((0, ()))
+      conds = list(s.guards)
+      if v == Aff.const(0):
+        continue
+      if v != Aff.const(1):
+        c = s.cmp.get((0, ()))
+        sy = v.single()
+        if c is not None and c[0] != 'discr':
+          conds.append(c)
+        elif isinstance(sy, tuple) and sy[0] == 'call':
+          t = b.blocks[sy[1]]['t']
+          nm = norm(t['f'].get('res') or t['f'].get('fn') or '')
+          if nm.endswith('::contains') and ('ops::Range' in nm or 'range::Range' in nm):
+            st0 = an.at_term(sy[1])
+            rk = None
+            for s0 in st0:
+              src = t['args'][0].get('c') or t['args'][0].get('m')
+              tg = [tk for tk, m in s0.ref.get(src['l'], ())] if src and not src.get('p') else []
+              if len(tg) == 1:
+                a0, a1 = s0.val((tg[0][0], tg[0][1] + (('f', 0),))), s0.val((tg[0][0], tg[0][1] + (('f', 1),)))
+                inclusive = 'RangeInclusive' in nm
+                if a0.is_const() and a1.is_const():
+                  acc.append((a0.c, a1.c if inclusive else a1.c - 1))
+                  rk = True
+            if not rk:
+              # the range is a promoted constant `&(A..B)`: its fields were evaluated by the extractor
+              for s0 in st0:
+                src = t['args'][0].get('c') or t['args'][0].get('m')
+                for tk, m in (s0.ref.get(src['l'], ()) if src and not src.get('p') else ()):
+                  for d in b.defs().get(tk[0], []):
+                    kv = ((d.get('rv') or {}).get('o') or {}).get('k') or {}
+                    stv = (kv.get('v') or {}).get('st') if isinstance(kv.get('v'), dict) else None
+                    if stv and 'start' in stv and 'end' in stv and not rk:
+                      acc.append((int(stv['start']), int(stv['end']) if 'RangeInclusive' in nm else int(stv['end']) - 1))
+                      rk = True
+            if rk:
+              continue
+          unknown.append(str(v))
+          continue
+        else:
+          unknown.append(str(v))
+          continue
+      lo, hi = 0, (1 << 64) - 1
+      okp = True
+      for op, x, y in conds:
+        # bounds of the form n (op) const / const (op) n
+        if is_n(x) and y.is_const():
+          k = y.c
+          if op == 'Ge': lo = max(lo, k)
+          elif op == 'Gt': lo = max(lo, k + 1)
+          elif op == 'Lt': hi = min(hi, k - 1)
+          elif op == 'Le': hi = min(hi, k)
+          else: okp = False
+        elif is_n(y) and x.is_const():
+          k = x.c
+          if op == 'Le': lo = max(lo, k)
+          elif op == 'Lt': lo = max(lo, k + 1)
+          elif op == 'Gt': hi = min(hi, k - 1)
+          elif op == 'Ge': hi = min(hi, k)
+          else: okp = False
+        else:
+          okp = False
+      if okp:
+        acc.append((lo, hi))
+      else:
+        unknown.append(str(conds))
+  ctx.ob('R29.4', b.n, 'the accepting condition is a range test on n with constant bounds', not unknown and bool(acc), f'{unknown[:2]}', where(b, b.line))
+  if acc and not unknown:
+    lo, hi = min(a for a, _ in acc), max(h for _, h in acc)
+    contiguous = len(set(acc)) == 1
+    ctx.ob('R29.4', b.n, f'accepted numbers are exactly [{lo_want}, {hi_want}] = the sats of block 9', contiguous and (lo, hi) == (lo_want, hi_want), f'accepted [{lo}, {hi}]', where(b, b.line))
